@@ -30,19 +30,30 @@ type LogBuf struct {
 	mu    sync.Mutex
 	lines []LogLine
 	part  []byte
+	// OnLine, if set, is called (outside the buffer's own lock, on the goroutine that logs) for every complete line:
+	// a log sink may be slow, or be the point at which something else happens
+	OnLine func(text string)
 }
 
 func (l *LogBuf) Write(p []byte) (int, error) {
 	l.mu.Lock()
-	defer l.mu.Unlock()
 	l.part = append(l.part, p...)
+	var fresh []string
 	for {
 		i := bytes.IndexByte(l.part, '\n')
 		if i < 0 {
 			break
 		}
 		l.lines = append(l.lines, LogLine{At: time.Now(), Text: string(l.part[:i])})
+		if l.OnLine != nil {
+			fresh = append(fresh, string(l.part[:i]))
+		}
 		l.part = l.part[i+1:]
+	}
+	hook := l.OnLine
+	l.mu.Unlock()
+	for _, t := range fresh {
+		hook(t)
 	}
 	return len(p), nil
 }
